@@ -21,6 +21,7 @@
 #include <cctype>
 #include <cstdlib>
 #include <cerrno>
+#include <limits>
 
 namespace sbepp::sbeppc
 {
@@ -141,6 +142,24 @@ private:
         }
     }
 
+    // offsets and lengths are taken from the schema as is, the end of an
+    // element should not wrap around
+    static offset_t get_element_end(
+        const offset_t offset,
+        const std::size_t size,
+        const source_location& location)
+    {
+        if(size > (std::numeric_limits<offset_t>::max() - offset))
+        {
+            throw_error(
+                "{}: offset ({}) plus size ({}) is too large",
+                location,
+                offset,
+                size);
+        }
+        return offset + size;
+    }
+
     void validate_field_offset(const sbe::field& f, offset_t& current_offset)
     {
         auto& context = ctx_manager->get(f);
@@ -165,7 +184,7 @@ private:
         }
 
         const auto enc_size = context.size;
-        current_offset += enc_size;
+        current_offset = get_element_end(current_offset, enc_size, f.location);
     }
 
     static field_presence
@@ -912,8 +931,14 @@ private:
             }
         }
 
-        ctx_manager->create(t).size =
-            t.length * get_primitive_type_size(t.primitive_type);
+        const auto primitive_type_size =
+            get_primitive_type_size(t.primitive_type);
+        if(t.length
+           > (std::numeric_limits<std::size_t>::max() / primitive_type_size))
+        {
+            throw_error("{}: `length` ({}) is too large", t.location, t.length);
+        }
+        ctx_manager->create(t).size = t.length * primitive_type_size;
     }
 
     void validate_valid_values(
@@ -1172,7 +1197,8 @@ private:
         }
 
         const auto enc_size = context.size;
-        current_offset += enc_size;
+        current_offset =
+            get_element_end(current_offset, enc_size, element.location);
     }
 
     void validate_encoding(const sbe::composite& c)
